@@ -241,7 +241,7 @@ class ZWasserstein:
             nref = r.choice([1, 2, 4])
             ntr = len(c["train"])
             p = {"method": method, "input_method": im, "metric": r.choice(["cosine", "euclidean"]) if method != "HeuristicLinearAlgebra" else "cosine",
-                 "reference_size": nref, "random_state": r.randint(0, 9), "memory_size": r.choice(["1k", "4k", "2G"]), "reference_scale": 0.5}
+                 "reference_size": nref, "random_state": r.randint(0, 9), "memory_size": r.choice(["64", "1k", "4k", "2G"]), "reference_scale": 0.5}
             # full rank: n_components = n_rows <= LOT dimension (so that the SVD is exact and fit == transform)
             if method == "HeuristicLinearAlgebra":
                 p["n_components"] = min(ntr, c["dim"], c["npts"])
